@@ -216,7 +216,7 @@ func stop(ci *clusters.ClusterInfo) { ci.Stop() }
 
 // TestPropExplicitSubsetStrict: with an explicit subset every window of N consecutive picks is balanced to floor/ceil.
 func TestPropExplicitSubsetStrict(t *testing.T) {
-	sub := stats.NewSub("explicit-subset-strict", "rapid: k in 1..12 endpoints, each healthy / unhealthy / disabled, policy with an explicit upstream subset in any order, two times in three a second policy (for non-resource requests) with its own explicit subset - often of the same size - whose picks are interleaved following a generated pattern and judged on their own, and - with >= 5 ready endpoints, one time in three - 17-24 further policies with distinct two-endpoint subsets that all pick in rounds between the observed picks; L = 1..400 sequential picks (MatchAttributes + Pop per pick) with 0-3 re-deliveries of the unchanged object (ClusterInfo.Sync) at generated positions in between, then G goroutines x P picks; oracle: every pick is a ready endpoint of the subset; in every window of N consecutive sequential picks each of the r ready endpoints appears floor(N/r) or ceil(N/r) times; the totals over all picks (sequential + concurrent) are balanced to floor/ceil; no ready endpoint => error and no pick; non-trivial = >= 2 ready endpoints in the policy and L >= r; distinct by FNV-64 of (setup, L)")
+	sub := stats.NewSub("explicit-subset-strict", "rapid: k in 1..12 endpoints, each healthy / unhealthy / disabled, policy with an explicit upstream subset in any order, two times in three a second policy (for non-resource requests) with its own explicit subset - often of the same size - whose picks are interleaved following a generated pattern and judged on their own, and - with >= 5 ready endpoints, one time in three - 17-24 further policies with distinct two-endpoint subsets that all pick in rounds between the observed picks; L = 1..400 sequential picks (MatchAttributes + Pop per pick) with 0-4 spec deliveries (ClusterInfo.Sync) at generated positions in between that leave the server list and every policy's ready set as they are (the unchanged object, a server that no policy lists switched off or on, the logging mode edited, a flow-control schema added), then G goroutines x P picks; oracle: every pick is a ready endpoint of the subset; in every window of N consecutive sequential picks each of the r ready endpoints appears floor(N/r) or ceil(N/r) times; the totals over all picks (sequential + concurrent) are balanced to floor/ceil; no ready endpoint => error and no pick; non-trivial = >= 2 ready endpoints in the policy and L >= r; distinct by FNV-64 of (setup, L)")
 	stats.Check(t, stats.N(800, 6000), func(t *rapid.T) {
 		s := genSetup(t, true)
 		ci, ready, obj := build(t, s)
@@ -225,9 +225,31 @@ func TestPropExplicitSubsetStrict(t *testing.T) {
 		// the informer re-delivers the unchanged object now and then (resync, edits of unrelated fields): the ready set stays
 		// the same, so the windows below span these deliveries
 		resyncAt := map[int]bool{}
-		for i, n := 0, rapid.IntRange(0, 3).Draw(t, "resyncs"); i < n; i++ {
-			resyncAt[rapid.IntRange(0, L-1).Draw(t, "resyncBeforePick")] = true
+		resyncKind := map[int]int{}
+		for i, n := 0, rapid.IntRange(0, 4).Draw(t, "resyncs"); i < n; i++ {
+			at := rapid.IntRange(0, L-1).Draw(t, "resyncBeforePick")
+			resyncAt[at] = true
+			resyncKind[at] = rapid.IntRange(0, 3).Draw(t, "resyncKind")
 		}
+		// servers that no policy of this setup lists: switching one of them off or on is an edit that leaves every
+		// policy's ready set as it is
+		inSomePolicy := map[int]bool{}
+		for _, i := range s.Subset {
+			inSomePolicy[i] = true
+		}
+		for _, i := range s.Subset2 {
+			inSomePolicy[i] = true
+		}
+		for _, pr := range s.Noise {
+			inSomePolicy[pr[0]], inSomePolicy[pr[1]] = true, true
+		}
+		var outside []int
+		for i := 0; i < s.K; i++ {
+			if !inSomePolicy[i] {
+				outside = append(outside, i)
+			}
+		}
+		cur := obj.DeepCopy() // the latest version of the object
 		r := len(ready)
 		sub.Eval()
 		isReady := map[string]bool{}
@@ -273,10 +295,30 @@ func TestPropExplicitSubsetStrict(t *testing.T) {
 				sub.Class("round-of-picks-by-17-24-further-policies")
 			}
 			if resyncAt[i] {
-				if err := ci.Sync(obj.DeepCopy()); err != nil {
-					t.Fatalf("harness: re-sync of the unchanged object failed: %v", err)
+				class := "resync-of-the-unchanged-object-between-picks"
+				switch kind := resyncKind[i]; {
+				case kind == 1 && len(outside) > 0:
+					// a server that no policy lists is switched off / on again
+					j := outside[i%len(outside)]
+					d := !(cur.Spec.Servers[j].Disabled != nil && *cur.Spec.Servers[j].Disabled)
+					cur.Spec.Servers[j].Disabled = &d
+					class = "server-outside-every-policy-switched-off-or-on-between-picks"
+				case kind == 2:
+					if cur.Spec.Logging.Mode == proxyv1alpha1.LogOn {
+						cur.Spec.Logging.Mode = proxyv1alpha1.LogOff
+					} else {
+						cur.Spec.Logging.Mode = proxyv1alpha1.LogOn
+					}
+					class = "logging-mode-edited-between-picks"
+				case kind == 3:
+					cur.Spec.FlowControl.Schemas = append(cur.Spec.FlowControl.Schemas, proxyv1alpha1.FlowControlSchema{Name: fmt.Sprintf("extra%d", len(cur.Spec.FlowControl.Schemas)),
+						FlowControlSchemaConfiguration: proxyv1alpha1.FlowControlSchemaConfiguration{MaxRequestsInflight: &proxyv1alpha1.MaxRequestsInflightFlowControlSchema{Max: 5}}})
+					class = "flow-control-schema-added-between-picks"
 				}
-				sub.Class("resync-of-the-unchanged-object-between-picks")
+				if err := ci.Sync(cur.DeepCopy()); err != nil {
+					t.Fatalf("harness: sync of an edit that leaves servers and ready sets alone failed: %v", err)
+				}
+				sub.Class(class)
 			}
 			if pattern[i%len(pattern)] {
 				e, err := pickFor(ci, req2)
